@@ -238,6 +238,44 @@ pub(crate) mod verif_probe {
                 let vv = v.clone();
                 Some(rt.block_on(async move { login(vv).await }))
             }
+            "show_lists" => {
+                let rt = tokio::runtime::Builder::new_multi_thread().worker_threads(2).enable_all().build().unwrap();
+                let v = v.clone();
+                Some(rt.block_on(async move {
+                    let mut cregs = vec![]; let mut sregs = vec![];
+                    for (i, c) in v["clients"].as_array().unwrap().iter().enumerate() {
+                        let s = Arc::new(crate::stats::ClientStats::new(777_000 + i as i32, "app", "u", "db", tokio::time::Instant::now()));
+                        s.register(s.clone());
+                        match c.as_str().unwrap() { "active" => s.active(), "waiting" => s.waiting(), _ => s.idle() }
+                        cregs.push(s);
+                    }
+                    for c in v["servers"].as_array().unwrap() {
+                        let s = Arc::new(crate::stats::ServerStats::new(crate::config::Address::default(), tokio::time::Instant::now()));
+                        s.register(s.clone());
+                        match c.as_str().unwrap() { "active" => s.active("app".to_string()), "tested" => s.tested(), "idle" => s.idle(), _ => s.login() }
+                        sregs.push(s);
+                    }
+                    let map: ClientServerMap = Arc::new(parking_lot::Mutex::new(HashMap::new()));
+                    let mut out: Vec<u8> = vec![];
+                    let r = crate::admin::handle_admin(&mut out, crate::messages::simple_query("SHOW LISTS"), map).await;
+                    for s in cregs.iter() { s.disconnect(); }
+                    for s in sregs.iter() { s.disconnect(); }
+                    if r.is_err() { return json!({"error": format!("handle_admin: {:?}", r)}); }
+                    let mut lists = serde_json::Map::new(); let mut i = 0usize;
+                    while i + 5 <= out.len() {
+                        let ln = i32::from_be_bytes([out[i + 1], out[i + 2], out[i + 3], out[i + 4]]) as usize;
+                        if out[i] == b'D' {
+                            let body = &out[i + 5..i + 1 + ln];
+                            let n = u16::from_be_bytes([body[0], body[1]]) as usize; let mut j = 2; let mut cols = vec![];
+                            for _ in 0..n { let l = i32::from_be_bytes([body[j], body[j + 1], body[j + 2], body[j + 3]]) as usize; j += 4;
+                                            cols.push(String::from_utf8_lossy(&body[j..j + l]).to_string()); j += l; }
+                            if cols.len() == 2 { lists.insert(cols[0].clone(), json!(cols[1])); }
+                        }
+                        i += 1 + ln;
+                    }
+                    json!({"lists": lists, "want": v["want"]})
+                }))
+            }
             "show_servers" => {
                 // server connections registered in the real registry with given states and counters; SHOW SERVERS through the real handle_admin
                 let rt = tokio::runtime::Builder::new_multi_thread().worker_threads(2).enable_all().build().unwrap();
